@@ -10,7 +10,7 @@
 //            d<k> (deep tree) | v<k> (multimap: every 2nd key value-less) | i<k> (internal capacity)
 //   post  :  none clear swapf fswap massign cassign reuse       (applied to the source S after op; F = fresh, id aid)
 //
-//   tie part   : ok T=<id|null|-> S=<id|null> tc=<..> sc=<..> mv=<0|1> cp=<0|1> S2=<id|null> s2c=<..> F=<id|null|-> fc=<..>
+//   tie part   : ok T=<id|null|-> S=<id|null> tc=<..> sc=<..> mv=<0|1> cp=<0|1> S2=<id|null> s2c=<..> F=<id|null|-> fc=<..> E=<0|1>
 //                or `abort`
 //   oracle part: orc=ok | orc=<what is wrong>   [+ " nt" when the case exercised an unusual internal state]
 #include "private_access.h"
@@ -376,7 +376,7 @@ template<typename Ad> static void run_case(const Case& cs, FILE* out)
 {
 	typedef typename Ad::Cont C;
 	World& w = W();
-	std::string why;
+	std::string why, tie;
 	auto fail = [&why](const std::string& s) { if (why.size() < 300) why += " " + s; };
 	{
 		C S = Ad::make(cs.sid);
@@ -425,7 +425,7 @@ template<typename Ad> static void run_case(const Case& cs, FILE* out)
 			char buf[64]; snprintf(buf, sizeof buf, " mv=%d cp=%d", dm > 0 && !iscopy, dc > 0);   // element moves inside a fresh copy are its own business
 			tie1 = "ok T=" + idstr(tId) + " S=" + idstr(sId) + " tc=" + show(tc) + " sc=" + show(sc) + buf;
 		}
-		fputs(tie1.c_str(), out);
+		tie = tie1;
 		if (iscopy)
 		{
 			Ad::ins(T, 777001); Ad::ins(T, 777002);
@@ -478,7 +478,7 @@ template<typename Ad> static void run_case(const Case& cs, FILE* out)
 		if ((po == "swapf" || po == "fswap") && (s2c != f0 || fc != sBefore)) fail("post-swap-not-exact");
 		if (po == "massign" && (s2c != f0 || !fc.empty() || (dc1 != 0 && !(cs.kind == "ummap" && fId != -1)))) fail("post-move-assign-wrong");
 		if (po == "cassign" && (s2c != f0 || fc != f0)) fail("post-copy-assign-wrong");
-		fprintf(out, " S2=%s s2c=%s F=%s fc=%s", idstr(s2).c_str(), show(s2c).c_str(), idstr(fId).c_str(), show(fc).c_str());
+		tie += " S2=" + idstr(s2) + " s2c=" + show(s2c) + " F=" + idstr(fId) + " fc=" + show(fc);
 		// ---- every container that has a manager: it must allocate through exactly that manager from now on
 		if (Ad::id(S) != -1)
 		{
@@ -499,7 +499,9 @@ template<typename Ad> static void run_case(const Case& cs, FILE* out)
 	if (w.live_blocks() != 0) fail("leaked-blocks:" + std::to_string(w.live_blocks()));
 	if (w.live_objs() != 0) fail("leaked-elements:" + std::to_string(w.live_objs()));
 	if (!w.errors.empty()) { std::string e = w.errors[0]; for (char& ch : e) if (ch == ' ') ch = '_'; fail("kit:" + e); }
-	fprintf(out, " | orc=%s%s\n", why.empty() ? "ok" : why.c_str() + 1, g_unusual ? " nt" : "");
+	// E = a memory-protocol error was seen by kit (deallocation through a foreign manager, double free, ...): the
+	// model's counterpart is the WrongMgr outcome
+	fprintf(out, "%s E=%d | orc=%s%s\n", tie.c_str(), w.errors.empty() ? 0 : 1, why.empty() ? "ok" : why.c_str() + 1, g_unusual ? " nt" : "");
 }
 
 static bool dispatch(const Case& cs, FILE* out)
